@@ -34,9 +34,19 @@ def fn_lines(src):
         s = ln.strip()
         if s.startswith("//"):
             continue
-        m = re.match(r"^(?:pub\s+)?(?:unsafe\s+)?impl(?:<[^>]*>)?\s+(?:(\w+)(?:<[^>]*>)?\s+for\s+)?(\w+)", s)
-        if m:
-            owner_stack.append((depth, m.group(2)))
+        if re.match(r"^(?:pub\s+)?(?:unsafe\s+)?impl\b", s):
+            # strip (possibly nested) generic argument lists, then read `impl [Trait for] Type`
+            flat, dep = [], 0
+            for ch in s:
+                if ch == "<":
+                    dep += 1
+                elif ch == ">":
+                    dep -= 1
+                elif dep == 0:
+                    flat.append(ch)
+            m = re.match(r"^(?:pub\s+)?(?:unsafe\s+)?impl\s+(?:(\w+)\s+for\s+)?(\w+)", "".join(flat))
+            if m:
+                owner_stack.append((depth, m.group(2)))
         m = re.match(r"^(?:pub\s+)?trait\s+(\w+)", s)
         if m:
             owner_stack.append((depth, m.group(1)))
